@@ -114,6 +114,12 @@ func init() {
 			c.guard("SEQ.FOR", s.ruleFor)
 			c.guard("SEQ.OVERLAP", s.ruleOverlap)
 			c.guard("RW.NODECL", func() { ruleRwNoDecl(c) })
+			// Delay elision turns "evaluated on every run of the enclosing loop" into "evaluated once": admissible
+			// only for operands that cannot produce a fresh object (basic literals) — `Yield(gen())` in a loop must
+			// hand out a new iterator each time
+			r14 := newRwRT(c)
+			c.guard("OPT.WHITELIST", func() { r14.ruleOptWhitelist(s) })
+			c.guard("OPT.RULES", r14.ruleOptRules)
 			// of the loop tables only the independence of two runs of one Seq value belongs here
 			c.keep(func(o Obligation) bool {
 				if o.Rule == "SEQ.FOR" {
